@@ -82,6 +82,10 @@ def observe(case):
                 common.with_alarm(lambda _: fn(case[1], ctx=ctx), None, 2)
             except BaseException:  # noqa: BLE001
                 pass
+        # ... and the battery itself on much larger and on smaller arguments (results dropped): an answer must not
+        # depend on which OTHER arguments were asked before
+        for other in (case[1] * 7 + 5000, case[1] + 3000, case[1] * 13 + 40000, max(case[1] - 1, 0)):
+            observe(("n", other, case[2]))
         return {"calls": first + observe(("n", case[1], case[2]))["calls"]}
     if kind == "n":
         n = case[1]
@@ -97,6 +101,16 @@ def observe(case):
         add("digitsum", n, 0, lambda: E.vy_sum(n, ctx))
         add("digits", n, 0, lambda: E.deep_flatten(n, ctx), "s")
         add("issquare", n, 0, lambda: E.is_square(n, ctx))
+        if n <= 400 and n % 3 == 0:
+            # the explicit range builtins are not the implicit ranges: flags M / m / Ṁ do not move their ends
+            cM, cm = Context(), Context()
+            cM.range_start = 0
+            cm.range_end = 0
+            for cx in (cM, cm):
+                add("range-1-n", n, 0, lambda: E.inclusive_one_range(n, cx), "s")
+                add("range-0-n1", n, 0, lambda: E.exclusive_zero_range(n, cx), "s")
+                add("range-0-n", n, 0, lambda: E.inclusive_zero_range(n, cx), "s")
+                add("range-1-n1", n, 0, lambda: E.exclusive_one_range(n, cx), "s")
         if n <= 400:
             add("range-1-n", n, 0, lambda: E.inclusive_one_range(n, ctx), "s")
             add("range-0-n1", n, 0, lambda: E.exclusive_zero_range(n, ctx), "s")
@@ -120,6 +134,21 @@ def observe(case):
         n, m = case[1], case[2]
         add("gcd", n, m, lambda: E.vy_gcd(n, m, ctx))
         add("lcm", n, m, lambda: E.lowest_common_multiple(n, m, ctx))
+        if n >= 1 and m >= 1 and (n + m) % 2 == 0:
+            # the gcd ELEMENT on one list (its template decides between the monadic and the dyadic form)
+            from vyxal.LazyList import LazyList
+
+            from . import runner
+            items = [n * 2, m * 2, (n + m) * 2]
+
+            def gcd_elem(lazy):
+                ns = runner.fresh_ns(stack=[5, LazyList(iter(list(items))) if lazy else list(items)])
+                exec(E.elements["ġ"][0], ns)
+                if len(ns["stack"]) != 2:
+                    raise ValueError("stack")
+                return ns["stack"][-1]
+            add("gcd-list", n, m, lambda: gcd_elem(False), "i", items)
+            add("gcd-list", n, m, lambda: gcd_elem(True), "i", items)
         if n <= 60 and m <= 60:       # also m > n: the binomial coefficient is 0 there
             a1 = digs(E.n_choose_r(n - 1, m - 1, ctx)) if n >= 1 and 1 <= m <= n else [0]
             a2 = digs(E.n_choose_r(n - 1, m, ctx)) if n >= 1 and m <= n else [0]
@@ -161,6 +190,7 @@ def main(tier):
         cs.append(("n", rng.randint(top, 10 ** 9), tier))
     cs += [("p", n, tier) for n in range(top + 1, (20000 if tier == "quick" else 200000) + 1)]
     cs += [("again", n, tier) for n in (range(1, 400, 7) if tier == "quick" else range(1, 3000, 3))]
+    cs += [("again", n, tier) for n in (1030, 1100, 1500, 2000, 3000, 4093, 6000, 9000, 20000, 50000, 65000, 70001, 10 ** 6 + 3)]
     with common.Scratch(PID) as s:
         mc = tlc.model_check(s, "MC_NumTheory", cfg="MC_NumTheory", workers=16)
         if not mc["ok"]:
